@@ -120,7 +120,25 @@ for label, kw in (("default", {}), ("True", {"enabled": True}), ("False", {"enab
             opt_calls.append(type(e).__name__ + ": " + str(e).split("] ")[-1])
         except BaseException as e:  # noqa: BLE001
             opt_calls.append("OTHER " + type(e).__name__)
+    # a named expression that establishes its name for a later tensor
+    NE1 = Annotated[np.ndarray, dltype.FloatTensor["a b c=a+b"]]
+    NE2 = Annotated[np.ndarray, dltype.FloatTensor["c"]]
+
+    def h4(x: NE1, y: NE2) -> NE2:
+        return y
+
+    g4 = dltype.dltyped(**kw)(h4)
+    ne_calls = []
+    for sx, sy in (((2, 3, 5), (5,)), ((2, 3, 5), (4,)), ((2, 3, 6), (6,)), ((1, 1, 2), (2,))):
+        try:
+            g4(mk(sx, "f32"), mk(sy, "f32"))
+            ne_calls.append("accept")
+        except dltype.DLTypeError as e:
+            ne_calls.append(type(e).__name__ + ": " + str(e).split("] ")[-1])
+        except BaseException as e:  # noqa: BLE001
+            ne_calls.append("OTHER " + type(e).__name__)
     out[label] = {
+        "fn_named_expr": ne_calls,
         "fn_opt": opt_calls,
         "providers": provs,
         "fn_identity": g is f, "dc_identity": D2 is D and D2.__init__ is d_init, "nt_identity": N2 is N,
